@@ -9,13 +9,15 @@
 (***************************************************************************)
 EXTENDS DenseOff, SequencesExt, TLC
 CONSTANTS Formulas, MaxT, MaxN, Vals, SS, T0,
+          Starts,        \* a signal begins at T0 + s for some s in Starts (signals that begin at different times: Dense!SigD)
           Sems, IOs      \* semantics and IO classes explored (interface-aware variants, property C06)
 VARIABLES phi, W, ready, md
 vars == <<phi, W, ready, md>>
 
-SigOf(S, e, vs) == LET ts == <<0>> \o SetToSortSeq(S, <) \o <<e>> IN [i \in 1..Len(ts) |-> <<T0 + ts[i], vs[i]>>]
-Signals(e) == UNION {{SigOf(S, e, vs) : vs \in [1..(Cardinality(S) + 2) -> Vals]} :
-                     S \in {S \in SUBSET (1..(e - 1)) : Cardinality(S) <= MaxN - 2}}
+SigOf(S, st, e, vs) == LET ts == <<st>> \o SetToSortSeq(S, <) \o <<e>> IN [i \in 1..Len(ts) |-> <<T0 + ts[i], vs[i]>>]
+Signals(e) == UNION {UNION {{SigOf(S, st, e, vs) : vs \in [1..(Cardinality(S) + 2) -> Vals]} :
+                            S \in {S \in SUBSET ((st + 1)..(e - 1)) : Cardinality(S) <= MaxN - 2}} :
+                     st \in {st \in Starts : st < e}}
 \* (the signals are chosen by a transition rather than in Init so that TLC's workers share the enumeration)
 Init == phi \in Formulas /\ W = <<>> /\ ready = FALSE
         /\ \E sm \in Sems : \E io \in [VarsOf(phi) -> IOs] : md = [sem |-> sm, io |-> io]
@@ -23,5 +25,12 @@ Next == /\ ~ready
         /\ \E e \in 1..MaxT : W' \in [VarsOf(phi) -> Signals(e)]
         /\ ready' = TRUE /\ UNCHANGED <<phi, md>>
 Spec == Init /\ [][Next]_vars
-Denotes == ready => OffDenotesM(phi, W, VarsOf(phi), SS, md)
+\* (a bounded operator over a signal that does not begin at time 0 is finding F-04b: T0 = 1 reproduces it; when several
+\*  begins are explored the bounded operators over a late signal are left out, so that everything else is decided)
+LateTimed == Starts # {0} /\ HasOp(phi, Timed) /\ \E v \in VarsOf(phi) : FirstT(W[v]) > 0
+Denotes == ready => (LateTimed \/ OffDenotesM(phi, W, VarsOf(phi), SS, md))
+\* when the signals begin together, evaluating every sub-formula on its own domain is evaluating it on the common domain
+SigDIsSigC == (ready /\ SameStart(W, VarsOf(phi))) =>
+  LET vs == VarsOf(phi) d0 == DomBegin(W, vs) dS == DomEnd(W, vs) + Settle(phi) IN
+  SigOnDomain(phi, W, vs, dS, SS, md) = SigC(phi, CellsOf(W, vs, d0, dS), dS - d0 + 1, SS, md)
 =============================================================================
